@@ -70,7 +70,7 @@ def parse(pattern):
         p = sp.parse(pattern)
     except Exception as e:
         raise Unsupported("regex does not parse: %r: %s" % (pattern, e))
-    if p.state.flags & ~(sc.SRE_FLAG_UNICODE):
+    if p.state.flags & ~(sc.SRE_FLAG_UNICODE | sc.SRE_FLAG_DOTALL):
         raise Unsupported("regex flags are not supported: %r" % pattern)
     return p
 
@@ -99,13 +99,13 @@ def _cat_match(cat, ch):
     raise Unsupported("regex: unsupported category %s" % (cat,))
 
 
-def charset(op, av, U):
+def charset(op, av, U, dotall=False):
     if op is sc.LITERAL:
         return frozenset(p for p in U if p == av)
     if op is sc.NOT_LITERAL:
         return frozenset(p for p in U if p != av)
     if op is sc.ANY:
-        return frozenset(p for p in U if p != 10)      # no DOTALL
+        return frozenset(p for p in U if dotall or p != 10)
     if op is sc.IN:
         neg = False
         items = av
@@ -132,6 +132,7 @@ class PNFA(object):
         self.U = U
         self.pattern = pattern
         p = parse(pattern)
+        self.dotall = bool(p.state.flags & sc.SRE_FLAG_DOTALL)       # re.compile(p, re.DOTALL) is carried as the global flag '(?s)'
         self.groupnames = dict((v, k) for k, v in p.state.groupdict.items())     # gid -> name
         self.ngroups = p.state.groups - 1
         self.kind = {}
@@ -158,7 +159,7 @@ class PNFA(object):
     def _node(self, it, cont):
         op, av = it
         if op in (sc.LITERAL, sc.NOT_LITERAL, sc.ANY, sc.IN):
-            return self._new(("char", charset(op, av, self.U), cont))
+            return self._new(("char", charset(op, av, self.U, self.dotall), cont))
         if op is sc.SUBPATTERN:
             gid, add_flags, del_flags, body = av
             if add_flags or del_flags:
